@@ -408,6 +408,12 @@ func (e *Exec) resolve(st Step) Step {
 	out := st
 	out.Args = append([]string{}, st.Args...)
 	for i, a := range out.Args {
+		// the absolute spelling of a working-tree path: the sandbox directory differs between the run that found
+		// a case and the run that replays it
+		if strings.HasPrefix(a, "{{work}}") {
+			out.Args[i] = e.Box.Work + strings.TrimPrefix(a, "{{work}}")
+			continue
+		}
 		// {{tree#n}} / {{commit#n}} anywhere inside an argument (a message that quotes an id)
 		if strings.Contains(a, "{{") {
 			out.Args[i] = symbolicID.ReplaceAllStringFunc(a, func(m string) string {
